@@ -611,7 +611,7 @@ var skipInit = map[string]bool{
 	"vendor/golang.org/x/net/idna": true, "vendor/golang.org/x/text/unicode/norm": true,
 	"vendor/golang.org/x/text/unicode/bidi": true, "net/textproto": false, "internal/reflectlite": true,
 	"crypto/internal/boring": true, "crypto/internal/bigmod": true, "math/big": true, "encoding/json": true,
-	"compress/flate": true, "compress/gzip": true, "archive/tar": true, "os/user": true, "os/exec": true,
+	"compress/flate": true, "compress/gzip": true, "os/user": true, "os/exec": true,
 	"internal/abi": true, "internal/bytealg": true, "hash/crc32": true, "crypto/sha256": true, "crypto/sha512": true,
 	"crypto/sha1": true, "crypto/md5": true, "crypto": false, "time": true, "internal/oserror": false,
 	"net/netip": true, "net/url": false, "vendor/golang.org/x/net/http/httpguts": true, "net/http/httputil": true,
